@@ -94,8 +94,21 @@ class Ctx:
             traces = [r for r in res if r is not None]
         else:
             traces = []
+            from .drivers import common as _c
+            runaways = 0
             for p in programs:
-                traces.append(runner(p))
+                try:
+                    with _c.budget():
+                        traces.append(runner(p))
+                except _c.Runaway as e:
+                    # not a step of any specification: judged (and reported) like any other unexplained event
+                    traces.append([{"op": "runaway", "out": "Runaway", "why": str(e)}])
+                    runaways += 1
+                    if runaways >= 3:
+                        # three programs of this batch ran away: the rest of the batch is not executed (the verdict is settled)
+                        programs = programs[:len(traces)]
+                        self.notes.append(f"{source}: batch cut short after three runaway programs")
+                        break
         t_run = time.time() - t0
         return self.validate_traces(trace_module, trace_cfg, traces, programs, source=source,
                                     expect_clean=expect_clean, tamper=tamper, extra_doc=extra_doc,
